@@ -36,6 +36,16 @@ BY_CHECK = {
         "TLX.OnCode.C15.key_update_eq_rfc",
         "TLX.OnCode.C15.dev_quic_keys_eq_rfc",
     ]),
+    "C09": ("TLX.Props.OnCode.C09", [
+        "TLX.OnCode.C09.get_keys_from_string_total",
+        "TLX.OnCode.C09.parse_split_at_line_boundary",
+        "TLX.OnCode.C09.parse_pieces_eq_parse_joined",
+        "TLX.OnCode.C09.crlf_irrelevant",
+        "TLX.OnCode.C09.file_text_mode_irrelevant",
+        "TLX.OnCode.C09.foreign_lines_ignored",
+        "TLX.OnCode.C09.comment_and_blank_ignored",
+        "TLX.OnCode.C09.keys_invariant_under_delivery_on_code",
+    ]),
     "C14": ("TLX.Props.OnCode.C14", [
         "TLX.OnCode.C14.split_cipher_suite_sound_complete",
         "TLX.OnCode.C14.cipher_suites_keys",
